@@ -23,11 +23,13 @@ import (
 	"strconv"
 	"strings"
 	"sync"
+	"sync/atomic"
 	"time"
 
 	"github.com/alicebob/miniredis/v2"
 
 	"tunnox-core/internal/core/idgen"
+	corelog "tunnox-core/internal/core/log"
 	"tunnox-core/internal/core/node"
 	"tunnox-core/internal/core/storage"
 	legacystore "tunnox-core/internal/core/store/legacy"
@@ -140,6 +142,8 @@ type thread struct {
 	state     int // 0 running, 1 parked, 2 done
 	granted   bool
 	gid       uint64
+	calls     int  // storage calls that reached the gate (only touched by the thread itself)
+	pass      bool // storage calls run ungated (late second Release: it must not make any)
 	// scripted randomness of the current Generate call
 	kind int
 	pat  []uint64
@@ -154,12 +158,13 @@ type op struct {
 }
 
 type gate struct {
-	mu      sync.Mutex
-	cond    *sync.Cond
-	free    bool
-	byGid   map[uint64]*thread
-	events  []string
-	timeout bool
+	mu        sync.Mutex
+	cond      *sync.Cond
+	free      bool
+	byGid     map[uint64]*thread
+	byGidSync sync.Map
+	events    []string
+	timeout   bool
 }
 
 func newGate() *gate {
@@ -169,10 +174,11 @@ func newGate() *gate {
 }
 
 func (g *gate) me() *thread {
-	id := goid()
-	g.mu.Lock()
-	defer g.mu.Unlock()
-	return g.byGid[id]
+	// lock-free: the lookup must not serialise free-running callers
+	if v, ok := g.byGidSync.Load(goid()); ok {
+		return v.(*thread)
+	}
+	return nil
 }
 
 // enter blocks the calling thread until the scheduler grants its next storage call.
@@ -183,6 +189,10 @@ func (g *gate) enter() {
 	th := g.me()
 	if th == nil {
 		return
+	}
+	th.calls++
+	if th.pass {
+		return // the schedule step was already taken at the operation's own gate
 	}
 	g.mu.Lock()
 	th.state = 1
@@ -284,21 +294,12 @@ func (w *gatedHyb) SetRuntime(k string, v interface{}, ttl time.Duration) error 
 
 var errInjected = errors.New("verif: injected transient storage fault")
 
-type faultCtl struct {
-	mu    sync.Mutex
-	armed bool
-}
+type faultCtl struct{ armed atomic.Bool }
 
-func (f *faultCtl) arm(v bool) { f.mu.Lock(); f.armed = v; f.mu.Unlock() }
-func (f *faultCtl) hit() bool {
-	f.mu.Lock()
-	defer f.mu.Unlock()
-	if f.armed {
-		f.armed = false
-		return true
-	}
-	return false
-}
+func (f *faultCtl) arm(v bool) { f.armed.Store(v) }
+
+// hit is lock-free so that the injector does not serialise free-running callers.
+func (f *faultCtl) hit() bool { return f.armed.Load() && f.armed.CompareAndSwap(true, false) }
 
 type faultyPlain struct {
 	in storage.Storage
@@ -329,10 +330,12 @@ func (w *faultyPlain) Exists(k string) (bool, error) {
 	}
 	return w.in.Exists(k)
 }
-func (w *faultyPlain) SetExpiration(k string, ttl time.Duration) error { return w.in.SetExpiration(k, ttl) }
-func (w *faultyPlain) GetExpiration(k string) (time.Duration, error)   { return w.in.GetExpiration(k) }
-func (w *faultyPlain) CleanupExpired() error                           { return nil }
-func (w *faultyPlain) Close() error                                    { return nil }
+func (w *faultyPlain) SetExpiration(k string, ttl time.Duration) error {
+	return w.in.SetExpiration(k, ttl)
+}
+func (w *faultyPlain) GetExpiration(k string) (time.Duration, error) { return w.in.GetExpiration(k) }
+func (w *faultyPlain) CleanupExpired() error                         { return nil }
+func (w *faultyPlain) Close() error                                  { return nil }
 
 type faultyCAS struct{ faultyPlain }
 
@@ -689,7 +692,12 @@ func (e *env) tick(dt int64) bool {
 	case "red", "hyr":
 		mr.FastForward(time.Duration(dt) * time.Millisecond)
 	default:
-		return false
+		// real clock (memory, hybrid over memory): only the free-running cases may wait, and they wait
+		// for real; the expired markers stay in the map (lazy deletion) — "expired, not yet swept"
+		if !e.k.free || dt > 50 {
+			return false
+		}
+		time.Sleep(time.Duration(dt+2) * time.Millisecond)
 	}
 	return true
 }
@@ -773,8 +781,7 @@ func (e *env) release(th *thread, kind int, idstr string, id uint64) error {
 	return e.gensStr[key].Release(idstr)
 }
 
-
-func (e *env) runThread(th *thread) {
+func (e *env) runThread(th *thread, barrier func()) {
 	g := e.g
 	defer func() {
 		if r := recover(); r != nil {
@@ -786,7 +793,15 @@ func (e *env) runThread(th *thread) {
 		g.mu.Unlock()
 	}()
 	own, ownKind := "", -1
-	var alloc *node.NodeIDAllocator
+	var alloc, released *node.NodeIDAllocator
+	var firstCtx context.Context
+	var firstCancel context.CancelFunc
+	if len(th.ops) > 0 && th.ops[0].code == 'g' && th.ops[0].kind == nodeKind {
+		// everything except the allocation itself happens before the barrier
+		alloc = node.NewNodeIDAllocator(e.instStore(th.inst))
+		firstCtx, firstCancel = context.WithCancel(e.ctx)
+	}
+	barrier()
 	for _, o := range th.ops {
 		switch o.code {
 		case 'g':
@@ -794,7 +809,11 @@ func (e *env) runThread(th *thread) {
 				if alloc == nil {
 					alloc = node.NewNodeIDAllocator(e.instStore(th.inst))
 				}
-				ctx, cancel := context.WithCancel(e.ctx)
+				ctx, cancel := firstCtx, firstCancel
+				if ctx == nil {
+					ctx, cancel = context.WithCancel(e.ctx)
+				}
+				firstCtx, firstCancel = nil, nil
 				id, err := alloc.AllocateNodeID(ctx)
 				cancel() // the heartbeat goroutine is driven explicitly through `w`
 				if err != nil {
@@ -832,6 +851,25 @@ func (e *env) runThread(th *thread) {
 		case 'o', 'w':
 			if own == "" || (ownKind == nodeKind && alloc == nil) {
 				g.enter() // an operation without a storage call still takes one schedule step
+				if o.code == 'o' && released != nil && !g.free {
+					// a further Release() of an allocator that already released its id (deferred
+					// shutdown clean-up after an explicit release): the real code decides whether this
+					// touches the store; it must not
+					before := released.GetNodeID()
+					calls := th.calls
+					th.pass = true
+					err := released.Release()
+					th.pass = false
+					switch {
+					case th.calls == calls && err == nil:
+						g.ev(fmt.Sprintf("nop.%d", th.tid))
+					case err != nil:
+						g.ev(fmt.Sprintf("err.%d", th.tid))
+					default:
+						g.ev(fmt.Sprintf("relo.%d.%d.%s", th.tid, nodeKind, before))
+					}
+					continue
+				}
 				g.ev(fmt.Sprintf("nop.%d", th.tid))
 				continue
 			}
@@ -844,12 +882,17 @@ func (e *env) runThread(th *thread) {
 			} else {
 				if ownKind == nodeKind {
 					err = alloc.Release()
+					if err == nil {
+						released = alloc // kept for late second releases
+					} else {
+						released = nil // a retry after a failed Release is not driven (close of closed stopCh)
+					}
 					alloc = nil // a restarted node gets a fresh allocator
 				} else {
 					err = e.release(th, ownKind, own, 0)
 				}
 				if err == nil {
-					g.ev(fmt.Sprintf("rel.%d.%d.%s", th.tid, ownKind, own))
+					g.ev(fmt.Sprintf("relo.%d.%d.%s", th.tid, ownKind, own))
 				}
 				own = "" // the caller does not retry a failed release (model: own := none)
 			}
@@ -960,6 +1003,7 @@ func execCase(cs string) (obs string) {
 	go func() {
 		defer close(done)
 		var wg sync.WaitGroup
+		var arrived, goFlag int32
 		for _, th := range k.threads {
 			th := th
 			wg.Add(1)
@@ -969,9 +1013,21 @@ func execCase(cs string) (obs string) {
 				g.mu.Lock()
 				th.gid = goid()
 				g.byGid[th.gid] = th
+				g.byGidSync.Store(th.gid, th)
 				g.mu.Unlock()
 				close(started)
-				e.runThread(th)
+				e.runThread(th, func() {
+					if !k.free {
+						return
+					}
+					// spin barrier: all threads are released at the same instant, after the ticks
+					atomic.AddInt32(&arrived, 1)
+					for n := 0; atomic.LoadInt32(&goFlag) == 0; n++ {
+						if n&0xfff == 0xfff {
+							runtime.Gosched()
+						}
+					}
+				})
 			}()
 			<-started
 			if !k.free {
@@ -981,6 +1037,9 @@ func execCase(cs string) (obs string) {
 			}
 		}
 		for _, s := range k.sched {
+			if k.free && s[0] != 1 {
+				continue // free-running cases have no forced steps
+			}
 			if s[0] == 1 {
 				if !e.tick(s[1]) {
 					g.ev("badtick")
@@ -999,6 +1058,10 @@ func execCase(cs string) (obs string) {
 			e.flt.arm(false)
 		}
 		if k.free {
+			for atomic.LoadInt32(&arrived) < int32(len(k.threads)) {
+				runtime.Gosched()
+			}
+			atomic.StoreInt32(&goFlag, 1)
 			wg.Wait()
 		}
 	}()
@@ -1071,6 +1134,9 @@ func main() {
 	nogen := flag.String("nogen", "", "")
 	flag.Parse()
 	rand.Reader = &scriptReader{orig: rand.Reader}
+	// the default logrus logger serialises every log call on one mutex (even when discarding), which
+	// staggers free-running callers; logging is orthogonal to the property
+	corelog.SetDefault(corelog.NewNopLogger())
 	out := common.NewOut()
 	emit := func(line string) {
 		line = strings.TrimSpace(line)
